@@ -6,6 +6,7 @@ import (
 	"fmt"
 	"os"
 	"os/exec"
+	"sort"
 	"strings"
 	"sync"
 	"time"
@@ -308,7 +309,9 @@ var injHist *ref.History
 func injHistory() *ref.History {
 	if injHist == nil {
 		g := &Gen{Cfg: ref.Cfg{Checksum: ref.ChecksumCRC32, RowsV2: true, TableID6: true, ServerID: 5, ServerVer: "5.7.30-log"}}
-		injHist = g.Build([]string{UTxXID, UTx2, UDDL, UTxSave, UTxCommit})
+		// empty and rolled-back units: the commit boundary of a unit that delivers
+		// nothing (or nothing but a BEGIN) is a resume position like any other
+		injHist = g.Build([]string{UTxXID, "txE", UTx2, UDDL, "txEX", UTxSave, UTxRollback, UTxCommit})
 	}
 	return injHist
 }
@@ -2140,6 +2143,41 @@ func scaleHistory(in ScaleInput) *ref.History {
 			}
 			evs = append(evs, ref.Q(ts, "shop", "BEGIN"), ref.TM(ts, t), ref.R(ts, ref.RowWrite, t, rows...), ref.X(ts, uint64(i+1)))
 		}
+	case "many-rows":
+		// one rows event of n rows for every n around the capacities a row list
+		// grown by append passes through (up to N), in each of the three kinds and
+		// once with two such events in one statement (lists of before and after
+		// images that share storage, or a per-event block that is pre-sized,
+		// show from the first size that no longer fits)
+		ta := TA(70)
+		xid := uint64(1)
+		for _, n := range rowCounts(in.N) {
+			n := n
+			ts0 := g.tick()
+			mk := func(kind ref.RowKind, salt int) *ref.AEvent {
+				var rows []ref.RowChange
+				for r := 0; r < n; r++ {
+					id := int64(n*100000 + salt*50000 + r)
+					switch kind {
+					case ref.RowWrite:
+						rows = append(rows, ref.RowChange{After: rowA(id, fmt.Sprintf("w%d", r), int64(r%60000))})
+					case ref.RowUpdate:
+						rows = append(rows, ref.RowChange{Before: rowA(id, fmt.Sprintf("b%d", r), int64(r%60000)), After: rowA(id+7, fmt.Sprintf("a%d", r), int64((r+1)%60000))})
+					default:
+						rows = append(rows, ref.RowChange{Before: rowA(id, fmt.Sprintf("d%d", r), int64(r%60000))})
+					}
+				}
+				return ref.R(ts0, kind, ta, rows...)
+			}
+			for _, kind := range []ref.RowKind{ref.RowWrite, ref.RowUpdate, ref.RowDelete} {
+				ts := g.tick()
+				evs = append(evs, ref.Q(ts, "shop", "BEGIN"), ref.TM(ts, ta), mk(kind, 0), ref.X(ts, xid))
+				xid++
+			}
+			ts := g.tick()
+			evs = append(evs, ref.Q(ts, "shop", "BEGIN"), ref.TM(ts, ta), mk(ref.RowUpdate, 1), mk(ref.RowUpdate, 2), ref.X(ts, xid))
+			xid++
+		}
 	case "wide-table":
 		// a table of N columns: every integer width, odd columns unsigned, values
 		// with the top bit set; VARCHAR columns so that the metadata block grows
@@ -2241,7 +2279,7 @@ func RunScale(r *chk.Run, only ...string) {
 	cases := []ScaleInput{
 		{"table-ids", ids, cfgA}, {"table-ids+1", ids, cfgA}, {"table-ids", 3000, cfgB},
 		{"big-transaction", bulk, cfgA}, {"big-transaction", 5000, cfgB},
-		{"kept-cells", 80, cfgA}, {"kept-cells", 20, cfgB},
+		{"kept-cells", 80, cfgA}, {"kept-cells", 20, cfgB}, {"many-rows", 1100, cfgA}, {"many-rows", 40, cfgB},
 		{"wide-table", 70, cfgA}, {"wide-table", 130, cfgA}, {"wide-table", 300, cfgA}, {"wide-table", 300, cfgB}, {"wide-table", 1000, cfgA},
 		{"cap-transactions", 3000, cfgA}, {"packet-sizes", 0, cfgA},
 		{"big-events", 6000, cfgA}, {"big-events", 6000, cfgB}, {"big-events", 70000, cfgA}, {"big-events", 300000, cfgA},
@@ -2277,6 +2315,32 @@ func RunScale(r *chk.Run, only ...string) {
 	r.Eval(n)
 	r.DistinctN(n)
 	r.Set("scale_histories", ran)
+}
+
+// rowCounts lists c-1, c, c+1 for every capacity c a slice grown by append
+// passes through up to max, the small counts 1..12, and 20, 21 (twice ten).
+func rowCounts(max int) []int {
+	seen := map[int]bool{}
+	var out []int
+	add := func(n int) {
+		if n >= 1 && n <= max+1 && !seen[n] {
+			seen[n] = true
+			out = append(out, n)
+		}
+	}
+	for n := 1; n <= 12; n++ {
+		add(n)
+	}
+	for _, n := range []int{19, 20, 21, 99, 100, 101, 1000} {
+		add(n)
+	}
+	for _, c := range appendCaps(max) {
+		add(c - 1)
+		add(c)
+		add(c + 1)
+	}
+	sort.Ints(out)
+	return out
 }
 
 // ReplayScale replays a scale execution.
